@@ -42,7 +42,7 @@ def init(ctx):
 def gen_cases(ctx):
     for inp in ctx.corpus():
         yield inp
-    n = ctx.n(150, 2500)
+    n = ctx.n(150, 1200)
     for i in range(n):
         rng = ctx.rng("movie", i)
         mv = linkcommon.gen_movie(rng, thorough=ctx.thorough, plant_history=(i % 2 == 0))
@@ -77,13 +77,15 @@ def run_legacy(inp):
 
     def it():
         for k, pts in enumerate(inp["frames"]):
-            yield [legacy.PointND(inp["t0"] + k, np.array(p, dtype=float)) for p in pts]
+            yield [legacy.PointND(inp["t0"] + k, np.array(p, dtype=float) * linkcommon.scale_of(inp))
+                   for p in pts]
     levels = []
     try:
         for k, lvl in enumerate(legacy.link_iter(it(), sr, memory=inp["memory"],
                                                  link_strategy="recursive")):
             cur = [p for p in lvl if p.t == inp["t0"] + k]
-            levels.append((inp["t0"] + k, [[int(round(v)) for v in p.pos] for p in cur],
+            levels.append((inp["t0"] + k,
+                           [[int(round(v / linkcommon.scale_of(inp))) for v in p.pos] for p in cur],
                            [int(p.track.id) for p in cur]))
     except SubnetOversizeException:
         levels.append((inp["t0"] + len(levels), inp["frames"][len(levels)], None))
